@@ -43,7 +43,10 @@ QueryClause(e) ==
   IF e.off /\ ~IsOpaque(st[i]) THEN "REJECT OnGrid:" \o q ELSE
   IF ~ObsMatches(e.state, SpecQuery(st, i, q)[i]) \/ e.aux # e.aux_before THEN "REJECT Mutated:" \o q ELSE
   IF e.ans # e.fresh THEN "REJECT Fresh:" \o q \o kf ELSE
-  IF \E k \in known : k[1] = q /\ k[2] = st[i] /\ k[3] # e.fresh THEN "REJECT Repeat:" \o q ELSE ""
+  \* "repeating a query returns an equal result": the same question put to the same state - the state as it is, float for float
+  \* (its signature).  Two objects on the same grid state whose floats differ in the last place (one went H -> R -> H) may
+  \* legitimately list a site on a cell face under different cells, and a slab then differs at its rim
+  IF \E k \in known : k[1] = q /\ k[2] = e.state.sig /\ k[3] # e.fresh THEN "REJECT Repeat:" \o q ELSE ""
 TraceQuery ==
   /\ Running /\ Ev.ev = "query"
   /\ IF ~(Ev.obj \in DOMAIN st /\ Ev.q \in QueryNames) THEN Fail("OOD event")
@@ -51,7 +54,7 @@ TraceQuery ==
           IF c # "" THEN Fail(c)
           ELSE /\ st' = SpecQuery(st, Ev.obj, Ev.q)
                /\ memo' = FillMemo(memo, st, Ev.obj, Ev.q)
-               /\ known' = known \cup {<<Ev.q, st[Ev.obj], Ev.fresh>>}
+               /\ known' = known \cup {<<Ev.q, Ev.state.sig, Ev.fresh>>}
                /\ l' = l + 1 /\ UNCHANGED <<blk, tid, verdict, ext>>
 TraceSwitch ==
   /\ Running /\ Ev.ev = "switch"
